@@ -344,6 +344,8 @@ def growth_configs(tier):
         ('g_v_NTR_stdlike', 'NTR', 'stdlike', [('vector', 0, 'u32')]),
         ('g_s3_TR_withrealloc', 'TR', 'withrealloc', [('small', 3, 'u32')]),
         ('g_s2_NTR_amcled_u16', 'NTR', 'amcled', [('small', 2, 'u16')]),
+        ('g_v_TR_amcled_u8', 'TR', 'amcled', [('vector', 0, 'u8')]),
+        ('g_s4_TC_stdlike_u8', 'TC', 'stdlike', [('small', 4, 'u8')]),
     ]
     t = [
         ('g_v_TR_amcled_u64', 'TR', 'amcled', [('vector', 0, 'u64')]),
@@ -367,8 +369,10 @@ def suite_growth(tier, seed):
 
         def one(cfg):
             N = cfg.slots[0][1]['n']
+            limit = cfg.slots[0][1]['maxsz']
             script = os.path.join(d, 'growth_%s.script' % cfg.name)
-            growth_scripts(script, n, N)
+            # a narrow size_type is filled up to its maximum (the growth is clamped there, not before)
+            growth_scripts(script, min(n, limit - N - 6) if limit < 1000 else n, N, dynamic_limit=limit if limit < 1000 else None)
             r = run_cfg_script(d, cfg, script, 'growth', batch=1)
             r['kind'] = 'growth'
             r['growth_n'] = n
@@ -537,6 +541,13 @@ def bigset_script(path, cms, big):
                         f.write(L('eraseKey', v=key))
                         f.write(L('insert', v=key))
                         f.write(L('eraseKey', v=key))
+                if cm in (0, 1) and n > 0:
+                    # correct hint at begin() (asc: a key below every element) and at end()
+                    lowkey, pos_low = -1, (0 if not desc else n)
+                    f.write(L('insertHint', v=lowkey, h=pos_low))
+                    f.write(L('eraseKey', v=lowkey))
+                    f.write(L('emplaceHint', v=lowkey, h=pos_low))
+                    f.write(L('eraseKey', v=lowkey))
                 f.write(L('destroy'))
                 f.write('reset\n')
 
@@ -610,7 +621,7 @@ SET_PROPS = {'C03', 'C04', 'C11', 'C12', 'C19'}
 # ------------------------------------------------------------------------------------------------------------------
 VEC_PROPS = {'C01', 'C02', 'C05', 'C06', 'C07', 'C10'}
 
-RELEVANT_STAT = {'C16': 'ops', 'C15': 'ops', 'C03': 'ops', 'C04': 'ops', 'C11': 'iterOps', 'C12': 'hints', 'C19': 'lookups', 'C18': 'ops', 'C08': 'limitExc', 'C13': 'ops', 'C14': 'ops', 'C09': 'faults', 'C01': 'ops', 'C02': 'prims', 'C05': 'pristineOps', 'C06': 'allocEvents', 'C07': 'stable', 'C10': 'alias'}
+RELEVANT_STAT = {'C20': 'constOps', 'C16': 'ops', 'C15': 'ops', 'C03': 'ops', 'C04': 'ops', 'C11': 'iterOps', 'C12': 'hints', 'C19': 'lookups', 'C18': 'ops', 'C08': 'limitExc', 'C13': 'ops', 'C14': 'ops', 'C09': 'faults', 'C01': 'ops', 'C02': 'prims', 'C05': 'pristineOps', 'C06': 'allocEvents', 'C07': 'stable', 'C10': 'alias'}
 
 
 def make_replay(prop, r, v):
@@ -775,6 +786,8 @@ def suite_static(tier, seed):
         viol = []
         for c in cs:
             for rown, what in c['fails'][:30]:
+                if 'relocatable' in what or 'pair<' in what:
+                    viol.append(dict(p='C14', l=int(rown) + 1, why='%s [%s -std=%s]' % (what.strip(), c['comp'], c['std'])))
                 viol.append(dict(p='C17', l=int(rown) + 1, why='%s [%s -std=%s] row %s' % (what.strip(), c['comp'], c['std'], json.dumps(rows[int(rown)]) if int(rown) < len(rows) else rown)))
             if c['other']:
                 viol.append(dict(p='C17', l=1, why='translation unit does not compile (%s -std=%s): %s' % (c['comp'], c['std'], c['other'][-300:])))
@@ -792,13 +805,14 @@ C16_PAIR = ('{"assignCopy", "assignMove", "swap", "eq", "ne", "lt", "le", "gt", 
             '"ctorCountVal", "pushBack", "popBack", "clear", "reserve", "shrinkToFit", "assignN", "insert1", "erase1"}')
 C16_EXTRA1 = '{"ctorDefault", "ctorCountVal", "destroy", "pushBack", "popBack", "popBackVal", "appendN", "appendNVal", "appendRange", "appendIlist", "reserve"}'
 C16_EXTRA2 = '{"ctorDefault", "ctorCountVal", "destroy", "pushBack", "popBack", "clear", "reserve", "shrinkToFit", "swap2", "eq"}'
-C16_TYPES = {1: ('vector', 0, 'u32'), 2: ('small', 2, 'u32'), 3: ('fixed', 6), 4: ('vector', 0, 'u32'), 5: ('small', 3, 'u32')}
+C16_TYPES = {1: ('vector', 0, 'u32'), 2: ('small', 2, 'u32'), 3: ('fixed', 6), 4: ('vector', 0, 'u32'), 5: ('small', 3, 'u32'),
+             6: ('small', 2, 'u32')}     # 6: element larger than a pointer
 
 
 def suite_matrix(tier, seed):
     def compute(d):
         import itertools
-        types = [2, 3, 4] if tier == 'quick' else [1, 2, 3, 4, 5]
+        types = [3, 4, 6] if tier == 'quick' else [1, 2, 3, 4, 5, 6]
         if tier == 'quick':
             cells = [('g++', 'c++11', False, False, '-O0'), ('g++', 'c++14', True, True, '-O2'), ('g++', 'c++17', False, True, '-O2'),
                      ('g++', 'c++20', True, False, '-O0'), ('g++', 'c++11', True, True, '-O2'), ('g++', 'c++20', False, True, '-O0')]
@@ -866,7 +880,6 @@ def suite_matrix(tier, seed):
                 if 'crashed' in v:
                     continue
                 with open(v['trace'], 'rb') as f:
-                    f.readline()
                     digests[(rr['ty'], kind, rr['name'])] = hashlib.sha256(f.read()).hexdigest()
         for rr in runs:
             viol = []
@@ -890,7 +903,7 @@ def suite_matrix(tier, seed):
                     # first differing line
                     a = open(v['trace']).read().split('\n')
                     b = open(os.path.join(d, 'traces', '%s_%s.ndjson' % (ref, kind))).read().split('\n')
-                    ln = next((i for i in range(1, min(len(a), len(b))) if a[i] != b[i]), min(len(a), len(b)))
+                    ln = next((i for i in range(0, min(len(a), len(b))) if a[i] != b[i]), min(len(a), len(b)))
                     viol.append(dict(p='C16', l=ln + 1, why='[%s] transcript differs from cell %s at line %d' % (kind, ref, ln + 1)))
             tr = next((v['trace'] for v in rr.get('traces', {}).values() if 'trace' in v), '')
             results.append(dict(config=rr['name'], tag='matrix', trace=tr, lines=lines, viol=viol, is_ref=False, kind='matrix', wall=0, run_wall=0,
@@ -929,18 +942,71 @@ def suite_matrix(tier, seed):
     return cached_suite('matrix', tier, seed, compute)
 
 
+def suite_readers(tier, seed):
+    def compute(d):
+        # the design-level model: every interleaving of readers and a writer on another container
+        md = workdir(d, 'mc_readers')
+        vlib.copy_specs(md)
+        rc, out, dt = vlib.tlc(md, 'Readers', 'Readers.cfg', workers=4, timeout=600, heap='4g')
+        counts = vlib.parse_counts(out)
+        if rc != 0 or counts is None or 'No error has been found' not in out:
+            raise InfraError('MODEL-ERROR: Readers model failed\n' + out[-2000:])
+        comps = ['g++'] if tier == 'quick' else ['g++', 'clang++']
+        runs = [(c, n) for c in comps for n in ((2, 4, 8) if tier == 'quick' else (2, 3, 4, 6, 8, 12))]
+        rounds = 10 if tier == 'quick' else 60
+
+        def one(job):
+            comp, nth = job
+            name = 'readers_%s_%d' % (comp.replace('+', 'p'), nth)
+            binary = os.path.join(workdir(d, 'bin'), 'readers_' + comp.replace('+', 'p'))
+            if not os.path.exists(binary):
+                cmd = [comp, '-std=c++17', '-O1', '-g', '-fsanitize=thread', '-pthread', '-w', '-I' + os.path.join(vlib.REPO, 'include'),
+                       os.path.join(vlib.HARNESS, 'readers_main.cpp'), '-o', binary + '.%d' % nth]
+                rcb, outb, dtb = vlib.run(cmd, timeout=900)
+                if rcb != 0:
+                    raise InfraError('BUILD-ERROR readers harness\n' + outb[-2000:])
+                os.replace(binary + '.%d' % nth, binary)
+            trace = os.path.join(workdir(d, 'traces'), name + '.ndjson')
+            viol = []
+            lines = 0
+            stats = dict(ops=0, execs=0)
+            for rep in range(3 if tier == 'quick' else 10):
+                rc2, out2, dt2 = vlib.run([binary, trace, str(nth), str(rounds)], timeout=600,
+                                          env={'TSAN_OPTIONS': 'exitcode=66 halt_on_error=1 second_deadlock_stack=0'})
+                if rc2 != 0:
+                    what = 'data race reported by ThreadSanitizer' if rc2 == 66 or 'ThreadSanitizer' in out2 else 'reader harness failed (rc=%d)' % rc2
+                    m = [x for x in out2.split('\n') if 'data race' in x or '#0' in x or '#1' in x][:4]
+                    viol.append(dict(p='C20', l=1, why='%s with %d reader threads: %s' % (what, nth, ' | '.join(x.strip() for x in m)[:400])))
+                    break
+                vd = workdir(d, 'val_' + name)
+                vlib.copy_specs(vd)
+                v = vlib.validate(vd, 'TraceReaders', 'TraceReaders.cfg', trace, heap='3g')
+                lines += v['lines']
+                stats['ops'] += v['stats'].get('ops', 0)
+                stats['execs'] += 1
+                viol += v['viol']
+                if v['viol']:
+                    break
+            stats['constOps'] = stats['ops']
+            return dict(config=name, tag='readers', trace=trace, lines=lines, viol=viol, is_ref=False, kind='readers', wall=0, run_wall=0, script='',
+                        stats=stats, mc=dict(states=counts[1], transitions=counts[0], model=dict(module='Readers', Shared=[3, 1, 2], NReaders=3, WriterSteps=2),
+                                             params=dict(threads=nth, rounds=rounds), ops={}, sample_walk=[dict(op='reader walk / find / compare / copy', threads=nth)]))
+        return dict(results=pmap(one, runs, workers=3))
+    return cached_suite('readers', tier, seed, compute)
+
+
 SUITE_FN = {}
 PROP_SUITES = {
     'C01': ['vec'], 'C02': ['vec', 'swap2', 'fault', 'sets', 'setfault'], 'C03': ['sets'], 'C04': ['sets'], 'C05': ['vec', 'sets'],
     'C06': ['vec', 'swap2', 'fault', 'sets', 'setfault'], 'C07': ['vec'], 'C08': ['limit'], 'C09': ['fault', 'setfault'],
-    'C10': ['vec'], 'C11': ['sets'], 'C12': ['sets'], 'C13': ['swap2'], 'C14': ['vec', 'swap2', 'sets'], 'C18': ['vec', 'growth'],
-    'C19': ['sets', 'bigsets'], 'C15': ['memalgo'], 'C17': ['static'], 'C16': ['matrix'],
+    'C10': ['vec'], 'C11': ['sets'], 'C12': ['sets'], 'C13': ['swap2'], 'C14': ['vec', 'swap2', 'sets', 'static'], 'C18': ['vec', 'growth'],
+    'C19': ['sets', 'bigsets'], 'C20': ['vec', 'sets', 'readers'], 'C15': ['memalgo'], 'C17': ['static'], 'C16': ['matrix'],
 }
 
 
 def run_property(prop, tier, seed):
     SUITE_FN.update(vec=suite_vec, swap2=suite_swap2, fault=suite_fault, limit=suite_limit, growth=suite_growth, sets=suite_sets,
-                    setfault=suite_setfault, bigsets=suite_bigsets, memalgo=suite_memalgo, static=suite_static, matrix=suite_matrix)
+                    setfault=suite_setfault, bigsets=suite_bigsets, memalgo=suite_memalgo, static=suite_static, matrix=suite_matrix, readers=suite_readers)
     if prop not in PROP_SUITES:
         raise InfraError('no check for property %s' % prop)
     results, wall, cached, extra = [], 0.0, True, {}
